@@ -19,11 +19,11 @@ template <class G, class IsDir> Z applyMulti(G &g, const std::string &op) {
             else if (k == "AR") { is >> i >> j >> f; recip(g, i, j, (bool)f, IsDir()); }
             else if (k == "MA") { is >> i >> j >> m >> f; g.addMultiedge(i, j, (EdgeMultiplicity)m, (bool)f); }
             else if (k == "MAR") { is >> i >> j >> m >> f; recipM(g, i, j, (EdgeMultiplicity)m, (bool)f, IsDir()); }
-            else if (k == "R") { is >> i >> j; g.removeEdge(i, j); }
+            else if (k == "R") { is >> i >> j; removeEdgeAliased(g, i, j); }
             else if (k == "MR") { is >> i >> j >> m; g.removeMultiedge(i, j, (EdgeMultiplicity)m); }
             else if (k == "MS") { is >> i >> j >> m; g.setEdgeMultiplicity(i, j, (EdgeMultiplicity)m); }
             else if (k == "SL") g.removeSelfLoops();
-            else if (k == "V") { is >> i; g.removeVertexFromEdgeList(i); }
+            else if (k == "V") { is >> i; removeVertexAliased(g, i); }
             else if (k == "CL") g.clearEdges();
             else if (k == "RZ") { is >> i; g.resize(i); }
             else if (k == "DD") g.removeDuplicateEdges();
@@ -36,10 +36,10 @@ template <class G> Z applyWeighted(G &g, const std::string &op) {
         std::istringstream is(op); std::string k; is >> k; long i = 0, j = 0, w = 0, f = 0;
         return guard([&]() -> Z {
             if (k == "WA") { is >> i >> j >> w >> f; g.addEdge(i, j, w / 4.0, (bool)f); }
-            else if (k == "R") { is >> i >> j; g.removeEdge(i, j); }
+            else if (k == "R") { is >> i >> j; removeEdgeAliased(g, i, j); }
             else if (k == "WS") { is >> i >> j >> w; g.setEdgeWeight(i, j, w / 4.0); }
             else if (k == "SL") g.removeSelfLoops();
-            else if (k == "V") { is >> i; g.removeVertexFromEdgeList(i); }
+            else if (k == "V") { is >> i; removeVertexAliased(g, i); }
             else if (k == "CL") g.clearEdges();
             else if (k == "RZ") { is >> i; g.resize(i); }
             else if (k == "DD") g.removeDuplicateEdges();
